@@ -14,6 +14,23 @@ def replay(spec):
     warnings.simplefilter("ignore")
     from bioscrape.types import Model
     text = spec["text"]
+    if spec.get("kind") == "growth":
+        # state-dependent growth law: one volume step = V*(exp(rate(state, t)*dt) - 1) with the written rate
+        from bioscrape.types import StateDependentVolume
+        Mg = Model(species=["A", "B"], parameters=[("k", 1.5)])
+        v = StateDependentVolume()
+        v.setup(10.0, 0.0, text, Mg)
+        idx = Mg.get_species2index()
+        bad = []
+        for (A, B, t, V, dt) in ((2.0, 1.0, 0.5, 3.0, 0.1), (4.0, 0.5, 2.0, 1.5, 0.25), (1.0, 3.0, 7.0, 0.7, 0.05)):
+            st = np.zeros(2)
+            st[idx["A"]], st[idx["B"]] = A, B
+            got = v.py_get_volume_step(st, np.array(Mg.get_parameter_values(), dtype=float), t, V, dt)
+            rate = eval(text.replace("^", "**"), {"__builtins__": {}}, dict(A=A, B=B, k=1.5, t=t, exp=math.exp, log=math.log))
+            want = V * (math.exp(rate * dt) - 1)
+            if not abs(got - want) <= 1e-9 * max(1.0, abs(want)):
+                bad.append("growth step %r at A=%s B=%s t=%s V=%s dt=%s, the written law gives %r" % (got, A, B, t, V, dt, want))
+        return {"reproduced": bool(bad), "observed": bad[:2], "expected": "V*(exp(rate*dt) - 1)"}
     M = Model(species=SPECIES, parameters=[(p, 1.0) for p in PARAMS])
     if spec.get("kind") == "reject":
         try:
